@@ -20,6 +20,26 @@ func init() { caseGens["C17"] = casesTT }
 // hashes per slot so that replacement, refusal and hash mismatch all occur.
 func casesTT(c *caseCtx) {
 	ctx := context.Background()
+	// tables made by one factory value are independent objects (two engines built from one option list,
+	// or a search still holding the previous table when the next one is created)
+	for _, mk := range []func(context.Context, uint64) search.TranspositionTable{search.NewMinDepthTranspositionTable(1), search.NewMinDepthTranspositionTable(0), search.NewTranspositionTable} {
+		t1 := mk(ctx, 1024)
+		t1.Write(board.ZobristHash(0x1234), search.ExactBound, 3, 4, eval.HeuristicScore(1), board.Move{From: 1, To: 2})
+		t2 := mk(ctx, 1024)
+		if _, _, _, _, ok := t2.Read(board.ZobristHash(0x1234)); ok {
+			fmt.Printf("IMPLVIOL ttfactory :: a table created after a store into its sibling returns that store: lookup hit in a table nobody wrote to prop=C17 key=factory-shared\n")
+		}
+		if _, d, _, _, ok := t1.Read(board.ZobristHash(0x1234)); !ok || d != 4 {
+			fmt.Printf("IMPLVIOL ttfactory :: creating a second table from the same factory emptied the first one (found=%v depth=%d) prop=C17 key=factory-shared\n", ok, d)
+		}
+		t2.Write(board.ZobristHash(0x9999), search.ExactBound, 3, 5, eval.HeuristicScore(2), board.Move{From: 3, To: 4})
+		if _, _, _, _, ok := t1.Read(board.ZobristHash(0x9999)); ok {
+			fmt.Printf("IMPLVIOL ttfactory :: a store into the second table is visible in the first prop=C17 key=factory-shared\n")
+		}
+		if u1, u2 := t1.Used(), t2.Used(); u1 <= 0 || u2 <= 0 || u1 > 1 || u2 > 1 {
+			fmt.Printf("IMPLVIOL ttfactory :: fill fractions %v and %v after one store each prop=C17 key=factory-shared\n", u1, u2)
+		}
+	}
 	for g := 0; g < c.scale(300, 6000); g++ {
 		size := []uint64{32, 64, 100, 256, 1024, 4096}[c.r.Intn(6)]
 		tt := search.NewTranspositionTable(ctx, size)
